@@ -75,9 +75,13 @@ func parseClusterNodes(data string) (map[string]*instance, error) {
 		if inst.MasterID == "" {
 			continue
 		}
-		master := insts[inst.MasterID]
-		master.Replicas = append(master.Replicas, inst)
 		delete(insts, id)
+		master, ok := insts[inst.MasterID]
+		if !ok {
+			// the master is not (or not yet) listed: ignore this replica.
+			continue
+		}
+		master.Replicas = append(master.Replicas, inst)
 	}
 	return insts, nil
 }
